@@ -668,6 +668,17 @@ class Matcher:
                 continue
             if not r.enc.startswith("nested:") and r.enc not in ("array", "vector"):
                 empty_ctx = False
+            # a length-prefixed byte string is the same bytes whether it is handled as a vector of u8 or as
+            # a CompactSize followed by that many raw bytes
+            def _bytevec(e):
+                return e.enc == "vector" and e.sub is not None and len(e.sub) == 1 and \
+                    e.sub[0].enc in ("int:le:u8", "int:be:u8", "raw:1")
+            if _bytevec(w_) and r.enc == "cs" and len(rs) > 1 and rs[1].enc == "raw:?":
+                rs, ws = rs[2:], ws[1:]
+                continue
+            if _bytevec(r) and w_.enc == "cs" and len(ws) > 1 and ws[1].enc == "raw:?":
+                rs, ws = rs[1:], ws[2:]
+                continue
             rn, wn = r.enc.startswith("nested:"), w_.enc.startswith("nested:")
             if rn and wn and r.enc == w_.enc:
                 if r.guards != w_.guards:
